@@ -46,3 +46,8 @@ NOT_APPLICABLE = {
     "C39": "bit vectors are a sequential in-memory structure; nothing depends on a schedule, clock or fault",
 }
 PENDING = {}
+
+# entries contributed as JSON files (one per property) in props.d/
+import glob as _glob, json as _json, os as _os
+for _f in sorted(_glob.glob(_os.path.join(_os.path.dirname(_os.path.abspath(__file__)), "props.d", "*.json"))):
+    PROPS[_os.path.basename(_f)[:-5]] = _json.load(open(_f))
